@@ -18,7 +18,7 @@ from .c01 import draw_fmt, fmt_tag
 
 ID = "C09"
 LEVEL = "exploration"
-BUDGET = {"quick": 500, "thorough": 20000}
+BUDGET = {"quick": 320, "thorough": 20000}
 WALL = {"quick": 300, "thorough": 3400}
 TECHNIQUE = "deterministic simulation: all k! orders of single-category sessions over a durable project directory versus the combined session (session histories as the schedule)"
 LEVEL_TEXT = ("seeded search over programs with >= 2 categories pending on shared nodes; per program every order of single-category sessions (k! <= 24 "
@@ -39,7 +39,7 @@ def generate(seed, tier="quick"):
     rng = sub(seed, "program")
     prof = V.draw_profile(sub(seed, "profile"), max_depth=2)
     prof.special = [s for s in prof.special if s not in ("norepr", "complex")]
-    prog = W.gen_program(rng, prof, {"prev": ["edit", "edit", "superset", "subset", "slack", "wrong", "other", "none", "same"], "n_sites": (1, 4),
+    prog = W.gen_program(rng, prof, {"prev": ["edit", "edit", "superset", "subset", "slack", "wrong", "other", "none", "same"], "n_files": (1, 2), "n_sites": (1, 4),
                                      "n_tests": (1, 2), "styles": ["rec"], "hand": 0.7, "ops": ["eq", "eq", "in", "in", "item", "le", "ge"], "idle": 0.2})
     # unused + hand-written elements in `in` lists and dict sub-snapshots (trim next to update)
     xr = sub(seed, "extra")
@@ -51,7 +51,7 @@ def generate(seed, tier="quick"):
                 for e in extra:
                     items.insert(xr.randint(0, len(items)), e)
                 s["arg"] = "[" + ", ".join(items) + "]"
-    driver = "plugin" if sub(seed, "driver").random() < 0.08 else "inline"
+    driver = "plugin" if sub(seed, "driver").random() < 0.3 else "inline"
     return {"program": prog, "driver": driver, "fmt": draw_fmt(sub(seed, "fmt")), "max_orders": 6 if tier == "quick" else 24}
 
 
@@ -118,7 +118,7 @@ def execute(case, ctx):
         if got != want:
             fn = [k for k in want if got.get(k) != want[k]][0]
             pair = "+".join(sorted(set(order)))
-            out["violations"].append({"clause": "confluence", "sig": f"order-matters:{'>'.join(order)}",
+            out["violations"].append({"clause": "confluence", "sig": f"order-matters:{'+'.join(pend)}",
                                       "detail": f"driver={driver} fmt={fmt_tag(fmt)} pending={pend}: approving {' then '.join(order)} gives another program than approving {pend} together\n"
                                                 f"--- before\n{s0[fn].decode()[:800]}\n--- one at a time ({'>'.join(order)})\n{cur[fn].decode('utf-8', 'replace')[:800]}\n--- together\n{comb[fn].decode('utf-8', 'replace')[:800]}"})
             break
